@@ -130,6 +130,23 @@ pub fn c06(tier: &str) -> i32 {
         ];
         searches.push(mk("composite unique index m(a, b): bounds on the leading column, on the non-leading column, and on both", prefix, alpha, if quick { 3 } else { 5 }, if quick { 3_000 } else { 400_000 }));
     }
+    {
+        // asymmetric sizes: p has 2 rows, g has 200 rows of 100 bytes (several pages); ANALYZE is in the alphabet
+        let g = TableDef::simple("g", &[("k", ColTy::Int), ("w", ColTy::Text)]);
+        let mut prefix = vec![Op::Auto(Stmt::CreateTable(p_plain.clone())), Op::Auto(Stmt::CreateTable(g)), Op::Auto(ins("p", &[(1, 10), (2, 20)]))];
+        for base in (0..200).step_by(40) {
+            prefix.push(Op::Auto(Stmt::Insert { table: "g".into(), rows: (base..base + 40).map(|k| vec![i(k), Val::Text("x".repeat(100))]).collect() }));
+        }
+        let alpha = vec![
+            Op::Analyze,
+            Op::Auto(ins("p", &[(3, 30)])),
+            Op::Auto(del("p", 1)),
+            Op::Auto(del("g", 1)),
+            Op::Vacuum,
+            Op::Auto(Stmt::CreateUniqueIndex { name: "g_k".into(), table: "g".into(), cols: vec!["k".into()] }),
+        ];
+        searches.push(mk("small p(k, v) against a 200-row g(k, w TEXT): non-equi and equi joins before and after ANALYZE", prefix, alpha, if quick { 2 } else { 4 }, if quick { 2_000 } else { 100_000 }));
+    }
     run_searches(
         "C06",
         tier,
